@@ -354,6 +354,41 @@ def h_mio_archive(size: int, n: int, fa0: int, fa1: int, sa: int, fb0: int, fb1:
     return reach(ok)
 
 
+def h_mio_archive_shrink(size: int, ns: int, sh: int, n: int, fa0: int, fa1: int, sa: int, fb0: int, fb1: int, sb: int,
+                         fc0: int, fc1: int, sc: int, t0: int, t1: int, t2: int) -> bool:
+    """
+    pre: 1 <= ns <= size <= 3 and 0 <= sh <= 1 and 1 <= n <= 3
+    pre: 0 <= fa0 <= 1 and 0 <= fa1 <= 1 and 0 <= fb0 <= 1 and 0 <= fb1 <= 1 and 0 <= fc0 <= 1 and 0 <= fc1 <= 1
+    pre: 0 <= sa <= 1 and 0 <= sb <= 1 and 0 <= sc <= 1
+    pre: 0 <= t0 <= 7 and 0 <= t1 <= 7 and 0 <= t2 <= 7
+    post: _
+    """
+    # the capacity of every population is the size the archive was last shrunk to: it also binds the
+    # populations that held fewer solutions at that moment and the solutions that arrive afterwards
+    install_tape([t0, t1, t2], denom=8)
+    g0, g1 = Goal(0), Goal(1)
+    arch = MIOArchive(OrderedSet([g0, g1]), size)
+    tests = [Sol(0, sa, 0, fitness={g0: pick(_FIT, fa0), g1: pick(_FIT, fa1)}),
+             Sol(1, sb, 0, fitness={g0: pick(_FIT, fb0), g1: pick(_FIT, fb1)}),
+             Sol(2, sc, 0, fitness={g0: pick(_FIT, fc0), g1: pick(_FIT, fc1)})][:n]
+    cap = size
+    ok = True
+    for step, batch in enumerate((tests[:1], tests[1:2], tests[2:])):
+        if step == sh:
+            arch.shrink_solutions(ns)
+            cap = ns
+            for g in (g0, g1):
+                ok = ok and arch._archive[g].num_solutions <= cap
+        if batch:
+            arch.update(batch)
+        for g in (g0, g1):
+            p = arch._archive[g]
+            covered = any(t.fitness[g] == 0.0 for b in (tests[:1], tests[1:2], tests[2:])[:step + 1] for t in b)
+            ok = ok and p.is_covered == covered
+            ok = ok and p.num_solutions <= (1 if covered else cap)
+    return reach(ok)
+
+
 META = {
     "level": "model_checking",
     "claim": "Bounded model checking by symbolic execution of the real archive code. CoverageArchive: from every valid "
@@ -384,7 +419,8 @@ META = {
                                            "clean/timeout/exception",
                "mio_population": "capacity 1..3, 3 operations (quick: 3 result kinds, thorough: 4) and 4 operations (thorough, 3 result kinds), "
                                  "h in {0,0.3,0.7,1.0}, sizes 0..2",
-               "mio_archive": "2 targets, population size 1..2, <=3 tests in 2 updates, fitness in {0,1}, sizes 0..1"},
+               "mio_archive": "2 targets, population size 1..2, <=3 tests in 2 updates, fitness in {0,1}, sizes 0..1; shrink histories: "
+               "population size 2..3 shrunk to 1..size before the first or the second of 3 single-test updates"},
     "outside": ["real search runs (DynaMOSA/MOSA/MIO) observed per iteration", "re-execution of archived tests",
                 "CoverageArchive.reset (un-covers by design)", "one-shot iterators passed to update",
                 "MIOArchive.update on tests with exceptions (chops the clone)"],
@@ -408,6 +444,7 @@ def obligations(tier: str):
         Chx("cov_step_k2", h_cov_step, timeout=T, fix={"k": 2}, split={"ncand": [0, 1], "c0": B}),
         Chx("cov_add_goals", h_cov_add_goals, timeout=T, split={"k": [1, 2], "c0": B}),
         Chx("mio_archive", h_mio_archive, timeout=T, split={"n": [1, 2, 3], "size": [1, 2]}),
+        Chx("mio_archive_shrink", h_mio_archive_shrink, timeout=T, fix={"n": 3}, split={"size": [2, 3], "sh": [0, 1]}),
     ]
     if q:
         obs += [
